@@ -13,7 +13,7 @@ def run(ctx):
     c, p, res = ctx.c, ctx.p, ctx.r
     am = p.module("actions")
     consts = {k: const_str(v) for k, v in am.constants.items() if const_str(v) and const_str(v).startswith("xstate.")}
-    c.floor("R1", "built-in action constants", len(consts), 14)
+    c.floor("R1", "built-in action constants", len(consts), 10)
     aliases = am.constants.get("BUILTIN_ACTION_ALIASES")
     c.need(isinstance(aliases, ast.Dict), "actions.BUILTIN_ACTION_ALIASES dict literal")
     c.floor("R1", "built-in aliases", len(aliases.keys), 30)
